@@ -178,6 +178,10 @@ run_directed = directed.run
 
 
 def cases(tier, rng):
+    for c in directed.condition_raising_type_error_cases():
+        yield "directed-condition-raising-type-error", c
+    for c in directed.nested_constructor_keeps_outer_marks_cases():
+        yield "directed-nested-constructor-keeps-outer-marks", c
     for c in directed.constructor_interrupted_cases():
         yield "directed-constructor-interrupted", c
     for c in directed.reserved_keyword_after_valid_calls_cases():
